@@ -56,8 +56,9 @@ Fixpoint join_nl (l : list bytes) : bytes :=
 
 Definition conflicts_text (ar : arrow) (conflicts : list bytes) : bytes :=
   match ar with
-  | AConflictList indent =>
-    trim_end (join_nl (map (fun c => repeat SP indent ++ [45%N; SP] ++ c) conflicts))
+  | AConflictList indent trim =>
+    let txt := join_nl (map (fun c => repeat SP indent ++ [45%N; SP] ++ c) conflicts) in
+    if trim then trim_end txt else txt
   | _ => []
   end.
 
